@@ -213,6 +213,11 @@ class Edits(Profile):
         cfg["universe"] = rng.choice([2, 3, 3, 4, 4, 5, 6, 8, 12, 20, 40])
         cfg["nsess"] = rng.choice([1, 1, 1, 2, 3])
         cfg["p_oob_index"] = rng.choice([0.0, 0.0, 0.15, 0.4])
+        if rng.random() < 0.002:
+            # a few runs with one very long child list (hundreds of siblings)
+            cfg["huge_fanout"] = True
+            cfg["universe"], cfg["steps"], cfg["shape"], cfg["nsess"] = 600, 800, "wide", 1
+            cfg["weights"] = {"new": 30, "add_child": 30, "shift": 8, "query": 4, "remove_child": 0.5}
 
     def judge(self, c):
         if not c.exp.judged:
@@ -535,7 +540,10 @@ class Registry(Profile):
                                              "%s unregistered h%d, which live node h%d (not discarded) still lists" % (k, h, l),
                                              {"node": h, "lister": l})
         # E1: nodes that came into being in this step are registered under their id
-        creating = k in ("new", "copy", "import_xml", "import_json", "restart", "expand", "eml_seed")
+        # (expand is judged by E5 above: copies that end up in the tree must be registered; a copy
+        # made below a references node that the same call then discards with its subtree is not in
+        # the tree and must not be)
+        creating = k in ("new", "copy", "import_xml", "import_json", "restart", "eml_seed")
         for h in range(c.nh, len(c.post.cells)):
             pc = c.post.cells[h]
             if pc is None:
